@@ -635,6 +635,12 @@ func checkGME(c *vsched.RunCtx, prop string) {
 			}
 		}
 	}
+	if c.Replay == nil || c.Replay.Harness == "sched:gme-update" {
+		runGMEDrivers(c, false)
+		if c.Replay != nil {
+			return
+		}
+	}
 	if c.Replay != nil {
 		v := c.Replay
 		for _, cfg := range cfgs {
@@ -774,9 +780,11 @@ func gmeDriverBody(variant int) func(s *vsched.Sched) *vsched.ExecOutcome {
 }
 
 func runGMEDrivers(c *vsched.RunCtx, race bool) {
-	pre, dev := 2, 1
+	// many threads (4 drivers + one monitor per pool) and long programs: the
+	// preemption bound is kept at 1 in the quick tier
+	pre, dev, delay := 1, 1, 3
 	if c.Thorough() {
-		pre = 3
+		pre, delay = 2, 4
 	}
 	for v := 0; v < 3; v++ {
 		name := fmt.Sprintf("variant=%d", v)
@@ -798,7 +806,7 @@ func runGMEDrivers(c *vsched.RunCtx, race bool) {
 			}
 			continue
 		}
-		res := vsched.Explore(vsched.ExploreOpts{Name: "sched:gme-update", Config: name, PreemptBound: pre, DevBound: dev, Race: race,
+		res := vsched.Explore(vsched.ExploreOpts{Name: "sched:gme-update", Config: name, PreemptBound: pre, DevBound: dev, DelayBound: delay, Race: race,
 			Deadline: c.Deadline, Shard: c.Shard, NShards: c.NShards}, gmeDriverBody(v))
 		c.Add(res)
 	}
